@@ -702,6 +702,19 @@ func (g *gm) genEntFor(ds string, batch []*kit.Ent) *kit.Ent {
 			delete(c.Refs, rapid.SampledFrom(ks).Draw(t, "dropref"))
 			return c
 		}
+	case 6: // an UPDATE of a known entity that is the first use of an identifier: a reference to a
+		// target, or through a predicate, that the hub has never seen (its internal id is handed out by
+		// this write although no entity in it is new)
+		c := cur.Clone()
+		c.Deleted = false
+		fresh := fmt.Sprintf("%s:fresh%d", g.pool.P[0], len(g.hist))
+		if rapid.Bool().Draw(t, "freshPred") {
+			c.Refs[fresh] = rapid.SampledFrom(g.pool.IDs).Draw(t, "tgt")
+		} else {
+			c.Refs[rapid.SampledFrom(g.pool.Preds).Draw(t, "rk")] = fresh
+		}
+		g.cls["first-use-of-identifier-in-an-update"] = true
+		return c
 	}
 	return e
 }
